@@ -356,11 +356,209 @@ theorem requestOpen_xinv (fname) (c : Bool) (s : S) (h : XInv s) :
     exact doClose_closed _ _ _
 
 theorem ftRequest_xinv (cfg size len) (s : S) (h : XInv s) : XInv (ftRequest cfg size len s) := by
-  have hr := requestOpen_xinv
-  have hs := xinv_setCl
+  have h1 := readBuffer_xinv cfg len s h
   unfold ftRequest
+  simp only []
+  split
+  · exact h1
+  · split
+    · exact translate_xinv _ _ _ _ h1
+    · split
+      · exact sendMsg_xinv _ _ _ _ _ _ _ (requestOpen_xinv _ _ _ (translate_xinv _ _ _ _ h1))
+      · split
+        · exact xinv_setCl _ _ rfl rfl rfl
+            (sendMsg_xinv _ _ _ _ _ _ _ (requestOpen_xinv _ _ _ (translate_xinv _ _ _ _ h1)))
+        · exact closeClient_xinv _ (xinv_setCl _ _ rfl rfl rfl
+            (sendMsg_xinv _ _ _ _ _ _ _ (requestOpen_xinv _ _ _ (translate_xinv _ _ _ _ h1))))
+
+/-- the offer's open block -/
+theorem offerOpen_xinv (fname) (s : S) (h : XInv s) :
+    XInv (setCl (fun cl => { cl with xf := { cl.xf with fd := (doOpen fname .wrct (closeOld s)).1 } })
+      (doOpen fname .wrct (closeOld s)).2) := by
+  have hcl0 : (closeOld s).cl = s.cl := by unfold closeOld; split <;> simp
+  refine xinv_replace (s0 := s) ((doOpen fname .wrct (closeOld s)).1) _ h
+    (by rw [doOpen_cl, hcl0]) ?_ ?_ ?_ rfl rfl rfl
+  · intro k hk
+    rcases doOpen_got k fname _ _ hk with h1 | h1
+    · exact Or.inl h1
+    · right; right
+      revert h1; unfold closeOld; split <;> simp [doClose_got]
+  · intro k hk
+    apply doOpen_closed
+    unfold closeOld; split
+    · exact doClose_closed_mono _ _ _ _ hk
+    · exact hk
+  · intro k hk
+    right
+    apply doOpen_closed
+    unfold closeOld
+    simp only [hk]
+    exact doClose_closed _ _ _
+
+theorem ftOffer_xinv (cfg len) (s : S) (h : XInv s) : XInv (ftOffer cfg len s) := by
+  have h1 := readBuffer_xinv cfg len s h
+  unfold ftOffer
+  simp only []
+  split
+  · exact h1
+  · have h2 := readExact_xinv 4 _ h1
+    split
+    · exact closeClient_xinv _ h2
+    · split
+      · exact translate_xinv _ _ _ _ h2
+      · split
+        · exact sendMsg_xinv _ _ _ _ _ _ _ (offerOpen_xinv _ _ (translate_xinv _ _ _ _ h2))
+        · exact xinv_setCl _ _ rfl rfl rfl
+            (sendMsg_xinv _ _ _ _ _ _ _ (offerOpen_xinv _ _ (translate_xinv _ _ _ _ h2)))
+
+theorem ftHeader_xinv (cfg size) (s : S) (h : XInv s) : XInv (ftHeader cfg size s) := by
+  unfold ftHeader
+  split
+  · cases hfd : s.cl.xf.fd with
+    | none => simp only []; exact xinv_setCl _ _ (by simp [hfd]) rfl rfl h
+    | some k =>
+      simp only []
+      refine xinv_replace (s0 := s) none _ h (doClose_cl _ _ _) ?_ ?_ ?_ rfl rfl rfl
+      · intro j hj; exact Or.inr (Or.inr ((doClose_got j false k s).mp hj))
+      · intro j hj; exact doClose_closed_mono _ _ _ _ hj
+      · intro j hj
+        rw [hfd] at hj
+        cases hj
+        exact Or.inr (doClose_closed _ _ _)
+  · exact chunk_xinv _ _ (xinv_setCl _ _ rfl rfl rfl h)
+
+@[simp] theorem doUncompress_cl (n) (s : S) : (doUncompress n s).2.cl = s.cl := by unfold doUncompress; ftsplit
+@[simp] theorem doCompress_cl (n) (s : S) : (doCompress n s).2.cl = s.cl := by unfold doCompress; ftsplit
+@[simp] theorem packetWrite_cl (fd size len buf) (s : S) : (packetWrite fd size len buf s).2.cl = s.cl := by
+  unfold packetWrite; ftsplit
+
+theorem ftPacket_xinv (cfg size len) (s : S) (h : XInv s) : XInv (ftPacket cfg size len s) := by
+  have h1 := readBuffer_xinv cfg len s h
+  unfold ftPacket
+  simp only []
+  split
+  · exact h1
+  · split
+    · exact h1
+    · rename_i fd hfd
+      split
+      · exact packetWrite_xinv _ _ _ _ _ h1
+      · exact closeXf_xinv fd _ (by simpa using hfd) (packetWrite_xinv _ _ _ _ _ h1)
+
+theorem ftEof_xinv (s : S) (h : XInv s) : XInv (ftEof s) := by
+  unfold ftEof
+  cases hfd : s.cl.xf.fd with
+  | none => simp only []; exact xinv_setCl _ _ (by simp [hfd]) rfl rfl h
+  | some k => simp only []; exact closeXf_xinv k s hfd h
+
+theorem ftAbort_xinv (cfg cp) (s : S) (h : XInv s) : XInv (ftAbort cfg cp s) := by
+  unfold ftAbort
+  cases hfd : s.cl.xf.fd with
+  | some k => simp only []; exact closeXf_xinv k s hfd h
+  | none => simp only []; xsplit
+
+theorem ftCommand_xinv (cfg cp len) (s : S) (h : XInv s) : XInv (ftCommand cfg cp len s) := by
+  have hd := deletePath_xinv
+  unfold ftCommand
   xsplit
-  all_goals trace_state
-  all_goals sorry
+
+theorem processFT_xinv (cfg ct cp size len) (s : S) (h : XInv s) : XInv (processFT cfg ct cp size len s) := by
+  have h1 := macroCheck_xinv cfg s h
+  unfold processFT
+  simp only []
+  split
+  · exact h1
+  · split
+    · split
+      · exact sendMsg_xinv _ _ _ _ _ _ _ h1
+      · split
+        · split
+          · exact readBuffer_xinv _ _ _ h1
+          · exact sendDirContent_xinv _ _ _ _ (readBuffer_xinv _ _ _ h1)
+        · exact h1
+    · exact ftRequest_xinv _ _ _ _ h1
+    · exact ftHeader_xinv _ _ _ h1
+    · exact ftPacket_xinv _ _ _ _ h1
+    · exact ftEof_xinv _ h1
+    · exact ftAbort_xinv _ _ _ h1
+    · exact ftOffer_xinv _ _ _ h1
+    · exact ftCommand_xinv _ _ _ _ h1
+    · exact h1
+
+/-- a client without the extension: any TightVNC message type is "unknown" and closes -/
+theorem tightMsg_xinv (cfg ty) (s : S) (h : XInv s) : XInv (tightMsg cfg ty s) := by
+  have ht : s.cl.tightExt = false := h.2.1
+  unfold tightMsg
+  simp only [ht]
+  exact closeClient_xinv _ (xinv_emit _ _ (by intro k; simp) h)
+
+theorem stepMsg_xinv (cfg) (s : S) (h : XInv s) : XInv (stepMsg cfg s) := by
+  have h0 := xinv_emit .start s (by intro k; simp) h
+  unfold stepMsg
+  simp only []
+  split
+  · exact h0
+  · split
+    · exact xinv_emit _ _ (by intro k; simp) (xinv_setCl _ _ rfl rfl rfl h0)
+    · have h1 := readExact_xinv 1 _ h0
+      split
+      · exact closeClient_xinv _ h1
+      · split
+        · have h2 := readExact_xinv 11 _ h1
+          split
+          · exact closeClient_xinv _ h2
+          · exact processFT_xinv _ _ _ _ _ _ h2
+        · exact tightMsg_xinv _ _ _ h1
+
+theorem chunkEntry_xinv (cfg) (s : S) (h : XInv s) : XInv (chunkEntry cfg s).2 :=
+  chunk_xinv _ _ (xinv_emit .start s (by intro k; simp) h)
+
+theorem peerGone_xinv (s : S) (h : XInv s) : XInv (peerGone s) :=
+  closeClient_xinv _ (xinv_setCl _ _ rfl rfl rfl (xinv_emit .start s (by intro k; simp) h))
+
+theorem reapClient_xinv (s : S) (h : XInv s) : XInv (reapClient s) := by
+  have h0 := xinv_emit .start s (by intro k; simp) h
+  unfold reapClient
+  cases hfd : s.cl.xf.fd with
+  | none => simp only []; exact h0
+  | some k =>
+    simp only []
+    refine xinv_replace (s0 := emit .start s) none _ h0 rfl ?_ ?_ ?_ rfl rfl rfl
+    · intro j hj
+      right; right
+      simpa using hj
+    · intro j hj; exact closed_mono_emit _ _ _ hj
+    · intro j hj
+      have : k = j := by simpa [hfd] using hj
+      subst this
+      right; simp [isCloseOf]
+
+theorem pump_xinv (cfg) (fuel : Nat) (s : S) (h : XInv s) : XInv (pump cfg fuel s) := by
+  induction fuel generalizing s with
+  | zero => exact h
+  | succ n ih =>
+    unfold pump; split
+    · exact h
+    · exact ih _ (stepMsg_xinv cfg s h)
+
+theorem sessStep_xinv (cfg) (s : S) (h : XInv s) (i : Input) : XInv (sessStep cfg s i) := by
+  cases i with
+  | bytes b =>
+    simp only [sessStep]; split
+    · exact pump_xinv cfg _ _ (xinv_setCl _ _ rfl rfl rfl h)
+    · exact h
+  | chunk => exact chunkEntry_xinv cfg s h
+  | gone => simp only [sessStep]; split; exact peerGone_xinv s h; exact h
+  | reap => simp only [sessStep]; split; exact h; exact reapClient_xinv s h
+
+theorem runSession_xinv (cfg) (inputs : List Input) (s : S) (h : XInv s) : XInv (runSession cfg s inputs) := by
+  induction inputs generalizing s with
+  | nil => exact h
+  | cons i rest ih => exact ih _ (sessStep_xinv cfg s h i)
+
+/-- after the teardown the record is empty -/
+theorem teardown_xf_none (s : S) : (reapClient (peerGone s)).cl.xf.fd = none := by
+  unfold reapClient
+  split <;> simp_all [setCl]
 
 end VncModel.FileXfer
